@@ -6,7 +6,8 @@
    \div rounds towards minus infinity and a % b is in 0..b-1 (b > 0 required); + - * ^ unary -
    and \div report an overflow outside int32; 2^(-1) and 0^0 are errors; 1..0 = {};
    SubSeq(s,m,n) = <<>> whenever m > n, an error when out of range otherwise; Head/Tail of <<>>,
-   application outside the domain, CHOOSE from no candidate are errors; = between values of
+   application outside the domain, CHOOSE from no candidate are errors; strings are sequences for
+   Len, \o, Tail and SubSeq (not for Head and Append); = between values of
    incomparable kinds is an error; a function with domain 1..n IS the tuple (<<1,2>> =
    (1 :> 1 @@ 2 :> 2), DOMAIN <<4,5>> = 1..2, Len(1 :> 7) = 1); /\, \/ and => are evaluated left
    to right (FALSE /\ 42 = FALSE, TRUE /\ 42 is an error); Assert(TRUE, m) = TRUE for any m.
@@ -187,13 +188,23 @@ Definition spec_concat (a b : value) : sres :=
   end.
 Definition spec_append (a x : value) : sres := on_seq a (fun s => SOk (VTup (s ++ [x]))).
 Definition spec_head (a : value) : sres := on_seq a (fun s => match s with [] => SErr | x :: _ => SOk x end).
-Definition spec_tail (a : value) : sres := on_seq a (fun s => match s with [] => SErr | _ :: r => SOk (VTup r) end).
+Definition spec_tail (a : value) : sres :=
+  match a with
+  | VTup s => match s with [] => SErr | _ :: r => SOk (VTup r) end
+  | VStr s => match s with [] => SErr | _ :: r => SOk (VStr r) end     (* TLC: Tail("ab") = "b" *)
+  | _ => SErr
+  end.
 Definition spec_subseq (a m n : value) : sres :=
   match a, m, n with
   | VTup s, VNum i, VNum j =>
       if j <? i then SOk (VTup [])
       else if (1 <=? i) && (j <=? Z.of_nat (List.length s))
            then SOk (VTup (firstn (Z.to_nat (j - i + 1)) (skipn (Z.to_nat (i - 1)) s)))
+           else SErr
+  | VStr s, VNum i, VNum j =>                                          (* TLC: SubSeq("abc",2,3) = "bc" *)
+      if j <? i then SOk (VStr [])
+      else if (1 <=? i) && (j <=? Z.of_nat (List.length s))
+           then SOk (VStr (firstn (Z.to_nat (j - i + 1)) (skipn (Z.to_nat (i - 1)) s)))
            else SErr
   | _, _, _ => SErr
   end.
